@@ -430,7 +430,7 @@ func CheckC02(p *Pkg, e *Env, r *res.Result) {
 		r.Evaluations++
 		fail := func(clause, msg string) {
 			if strings.Contains(clause, "body") && tg.info.Doc.Schema != nil {
-				clause += "@" + targetClass(p.Doc, tg.info.Doc.Schema)
+				clause += "@" + bodySchemaClass(p.Doc, tg.info.Doc.Schema)
 			}
 			f := res.Failure{Property: "C02", Kind: clause, Clause: clause,
 				Detail: fmt.Sprintf("%s returns %s %s (documented response %s, %s): %s", tg.op, tg.info.T, clip(fmt.Sprintf("%+v", v.Interface()), 300), tg.info.Doc.Status, respClass(p, tg.op, tg.info.Doc), msg),
@@ -587,7 +587,7 @@ func CheckC10(p *Pkg, e *Env, r *res.Result) {
 				if strings.Contains(clause, "body") {
 					for _, d := range tg.docs {
 						if (mode == "documented" && d.Status == tg.info.Doc.Status || mode != "documented" && d.Status == "default") && d.Schema != nil {
-							clause += "@" + targetClass(p.Doc, d.Schema)
+							clause += "@" + bodySchemaClass(p.Doc, d.Schema)
 						}
 					}
 				}
